@@ -41,11 +41,11 @@ class Worker:
             self.p.wait()
             self.p = None
 
-    def ask(self, batch, limit):
+    def ask(self, batch, limit, diag=False):
         """-> list of results, or None on timeout (child killed)."""
         if self.p is None:
             self.start()
-        self.p.stdin.write(json.dumps({"batch": batch}) + "\n")
+        self.p.stdin.write(json.dumps({"batch": batch, "diag": diag}) + "\n")
         self.p.stdin.flush()
         r, _, _ = select.select([self.p.stdout], [], [], limit)
         if not r:
@@ -61,7 +61,26 @@ class Worker:
 WORKER = Worker()
 
 
-def judge(ctx, s, origin, res, pred=None):
+def diagnose(ctx, s, spec, got):
+    """Conformance of the real error behaviour with spec/Diag.tla (which error, at which token).  This is MORE than
+    C10 states (C10 only fixes the alphabet of outcomes), so a difference is recorded in the evidence, never a violation."""
+    d = ctx.notes.setdefault("diagnosis_vs_spec", {"exact": 0, "class-only (misplaced whitespace)": 0, "noverdict": 0, "mismatch": 0})
+    if spec[0] == "noverdict" or got is None:
+        d["noverdict"] += 1
+        return
+    if spec[0] in ("syntax", "token") and spec[0] == got[0] and spec[1] == -2:
+        d["class-only (misplaced whitespace)"] += 1
+        return
+    if list(spec) == list(got):
+        d["exact"] += 1
+        return
+    d["mismatch"] += 1
+    ex = ctx.notes.setdefault("diagnosis_mismatch_examples", [])
+    if len(ex) < 12:
+        ex.append({"text": s[:120], "spec": spec, "real": got})
+
+
+def judge(ctx, s, origin, res, pred=None, sdiag=None):
     ctx.traces += 1
     key = None
     if res is None:
@@ -69,8 +88,10 @@ def judge(ctx, s, origin, res, pred=None):
         got = ["hang"]
         ctx.hangs = getattr(ctx, "hangs", 0) + 1
     else:
-        cls, dg, detail, nondet, dt = res
+        cls, dg, detail, nondet, dt = res[:5]
         got = [cls] + list(detail)
+        if sdiag is not None and len(res) > 5:
+            diagnose(ctx, s, sdiag, res[5])
         if cls == "skipped":
             ctx.traces -= 1
             return got
@@ -108,7 +129,8 @@ def many(ctx, items, origin_of, batch=400):
             out.extend([["skipped"]] * (len(items) - i))
             break
         chunk = items[i:i + batch]
-        res = WORKER.ask([c[0] for c in chunk], TIME_LIMIT + 10)
+        want_diag = any(len(c) > 3 and c[3] is not None for c in chunk)
+        res = WORKER.ask([c[0] for c in chunk], TIME_LIMIT + 10, want_diag)
         if res is None:
             # find the culprit(s) one by one
             res = []
@@ -119,7 +141,7 @@ def many(ctx, items, origin_of, batch=400):
                 r = WORKER.ask([c[0]], TIME_LIMIT)
                 res.append(None if r is None else r[0])
         for c, r in zip(chunk, res):
-            out.append(judge(ctx, c[0], origin_of(c), r, c[1]))
+            out.append(judge(ctx, c[0], origin_of(c), r, c[1], c[3] if len(c) > 3 else None))
     return out
 
 
@@ -128,6 +150,39 @@ def one(ctx, s, origin, pred=None):
         return ["skipped"]
     r = WORKER.ask([s], TIME_LIMIT)
     return judge(ctx, s, origin, None if r is None else r[0], pred)
+
+
+def validate_diagnoses(ctx, texts, limit):
+    """Random / Unicode inputs have no TLC-side prediction: the outcome the real parser gave (which error, where) is
+    a trace validated against Diag.tla under TLC (Trace_Diag).  Like diagnose(): evidence, never a violation."""
+    texts = [t for t in dict.fromkeys(texts) if len(t) <= 160][:limit]
+    if not texts or getattr(ctx, "hangs", 0):
+        return
+    res = WORKER.ask(texts, TIME_LIMIT + 30, True)
+    if res is None:
+        return
+    cases = [{"id": i + 1, "text": project.cps(t), "real": r[5]} for i, (t, r) in enumerate(zip(texts, res)) if r[5][0] != "other"]
+    path = os.path.join(tlc.BUILD, "trace_diag_%d.json" % os.getpid())
+    os.makedirs(tlc.BUILD, exist_ok=True)
+    with open(path, "w") as f:
+        json.dump(cases, f)
+    try:
+        out = tlc.run("Trace_Diag", env={"TRACE_FILE": path}, check_count=False, keep_lines=lambda r: r.get("k") == "verdict",
+                      timeout=3000, heap="12g")
+    finally:
+        os.unlink(path)
+    ctx.add_tlc(out)
+    seen = {r["id"]: r for r in out.records}
+    if len(seen) != len(cases):
+        raise tlc.MachineryError("Trace_Diag: %d verdicts for %d traces" % (len(seen), len(cases)))
+    d = ctx.notes.setdefault("diagnosis_vs_spec_random_inputs", {"ok": 0, "noverdict": 0, "differs": 0})
+    for c in cases:
+        v = seen[c["id"]]
+        d[v["v"]] += 1
+        if v["v"] == "differs":
+            ex = ctx.notes.setdefault("diagnosis_mismatch_examples", [])
+            if len(ex) < 12:
+                ex.append({"text": project.uncps(c["text"])[:120], "spec": v["spec"], "real": c["real"]})
 
 
 def families(tier):
@@ -219,9 +274,9 @@ def run(ctx):
                 if s in seen:
                     continue
                 seen.add(s)
-                items.append((s, r["pred"], label))
+                items.append((s, r["pred"], label, r.get("diag")))
             gots = many(ctx, items, lambda c: c[2])
-            for (s, _, _), got in zip(items, gots):
+            for (s, _, _, _), got in zip(items, gots):
                 if got[0] in ("ok", "unknown", "argc", "token"):
                     ctx.nontriv(s)
                     if got[0] != "token":
@@ -236,6 +291,7 @@ def run(ctx):
         for (s, _, _), got in zip(items, gots):
             if got[0] != "syntax":
                 ctx.nontriv(s)
+        validate_diagnoses(ctx, [c[0] for c in items], 3000 if quick else 20000)
         # the same string must give the same outcome after everything else has been parsed in the same process:
         # every input that involved a function call or was accepted, and every 20th of the rest, is parsed again
         first = getattr(ctx, "first_outcome", {})
